@@ -20,7 +20,7 @@ ASSUMPTIONS = [
 ]
 CASE_TIMEOUT = 600
 
-FAMILIES = ["scalar", "list", "partsel", "enum", "ctor"]
+FAMILIES = ["scalar", "list", "partsel", "enum", "ctor", "postrand"]
 
 
 def plan(tier):
@@ -47,6 +47,10 @@ def _cases(tier):
             cs.append({"family": "partsel", "w": w, "signed": s, "mode": "sampled"})
     for k in range(4 if tier == "quick" else 12):
         cs.append({"family": "enum", "variant": k})
+    # values written by the SOLVER (randomize pins every value of the type), then read through every path
+    for w in ([1, 2, 3, 4, 5, 8, 16, 32, 64] if tier == "quick" else [1, 2, 3, 4, 5, 6, 7, 8, 12, 16, 24, 31, 32, 33, 48, 63, 64]):
+        for s in (False, True):
+            cs.append({"family": "postrand", "w": w, "signed": s, "mode": "exhaustive" if w <= 5 else "sampled"})
     return cs
 
 
@@ -294,6 +298,61 @@ def _partsel(vsc, spec, mon):
                     mon.check("write bit [%d]=%d on %d" % (hi, v, cexp), fo.get_val(), exp, w=w, signed=s)
 
 
+def _postrand(vsc, spec, mon):
+    import random
+    w, s = spec["w"], spec["signed"]
+    mk = (vsc.int_t if s else vsc.bit_t)
+    mkr = (vsc.rand_int_t if s else vsc.rand_bit_t)
+
+    @vsc.randobj
+    class C(object):
+        def __init__(self):
+            self.r = mkr(w)
+            self.rl = vsc.rand_list_t(mk(w), sz=2)
+            self.rz = vsc.randsz_list_t(mk(w))
+            self.nl = vsc.list_t(mk(w), sz=1)
+
+        @vsc.constraint
+        def c(self):
+            self.rz.size == 1
+
+    o = C()
+    with vsc.raw_mode():
+        fr, frl, frz, fnl = o.r, o.rl, o.rz, o.nl
+    lo, hi = (-(1 << (w - 1)), (1 << (w - 1)) - 1) if s else (0, (1 << w) - 1)
+    if spec["mode"] == "exhaustive":
+        vals = list(range(lo, hi + 1))
+    else:
+        r = random.Random(spec["rseed"])
+        vals = sorted(set([lo, lo + 1, -1 if s else hi, 0, 1, hi - 1, hi] + [r.randint(lo, hi) for _ in range(12)]))
+    lit = (lambda v: vsc.signed(v, w)) if s else (lambda v: vsc.unsigned(v, w))
+    for v in vals:
+        if v < 0 or v > (hi >> 1):
+            mon.nontrivial += 1
+        v2 = vals[(vals.index(v) * 7 + 3) % len(vals)]
+        fnl[0] = v2
+        with o.randomize_with() as it:
+            it.r == lit(v)
+            it.rl[0] == lit(v)
+            it.rl[1] == lit(v2)
+            it.rz[0] == lit(v)
+        mon.check("solver r=%s attr" % v, o.r, v, w=w, signed=s)
+        mon.check("solver r=%s get_val" % v, fr.get_val(), v, w=w, signed=s)
+        mon.check("solver r=%s .val" % v, fr.val, v, w=w, signed=s)
+        for name, l, exp in (("rl", frl, [v, v2]), ("rz", frz, [v]), ("nl", fnl, [v2])):
+            it_ = list(l)
+            mon.check("solver %s len" % name, len(l), len(exp))
+            mon.check("solver %s iter-len" % name, len(it_), len(exp))
+            for i, e in enumerate(exp):
+                if i < len(it_):
+                    mon.check("solver %s=%s iter[%d]" % (name, exp, i), it_[i], e, w=w, signed=s)
+                try:
+                    g = l[i]
+                except Exception as ex:  # noqa
+                    g = "raised %r" % ex
+                mon.check("solver %s=%s index[%d]" % (name, exp, i), g, e, w=w, signed=s)
+
+
 def _enum(vsc, spec, mon):
     import random
     r = random.Random(spec["rseed"] ^ spec["variant"])
@@ -355,7 +414,8 @@ def exec_case(spec):
     mon = Mon(spec)
     fam = spec["family"]
     try:
-        {"scalar": _scalar, "list": _list, "partsel": _partsel, "enum": _enum, "ctor": _ctor}[fam](vsc, spec, mon)
+        {"scalar": _scalar, "list": _list, "partsel": _partsel, "enum": _enum, "ctor": _ctor,
+         "postrand": _postrand}[fam](vsc, spec, mon)
     except Exception as e:
         import traceback
         reset_lib_state()
